@@ -625,6 +625,17 @@ fn compute_lookup_polys<
             }
             final_poly_vecs[num_partial_lookups].values[first_lut_row + 1] -= end;
         }
+        #[cfg(feature = "verif_hooks")]
+        if let Some(jump) = crate::plonk::verif_knobs::get().sldc_jump_row {
+            if last_lu_row <= jump && jump <= first_lut_row {
+                let end = final_poly_vecs[num_partial_lookups].values[last_lu_row];
+                for row in last_lu_row..(jump + 1) {
+                    for slot in 0..num_partial_lookups {
+                        final_poly_vecs[slot + 1].values[row] -= end;
+                    }
+                }
+            }
+        }
     }
 
     final_poly_vecs
